@@ -1,4 +1,4 @@
-"""Translator for C13: literals and flag values of the command-line / command-string / config-file parsers.
+"""Translator for C13 (constants and literals only; the shape of the code is tied to the model by the correspondence run): literals and flag values of the command-line / command-string / config-file parsers.
 
 generate(repo) -> (coq_text, dict, problems); anchored regexes, a missing anchor is a problem.
 """
@@ -67,9 +67,6 @@ def generate(repo):
     else:
         problems.append('anchor not found: SyntaxError::Type')
 
-    # getOptionType
-    if not re.search(r'strncmp\(o,\s*"--",\s*2\)\s*==\s*0\)\s*\{\s*return\s+o\[2\]\s*\?\s*long_opt\s*:\s*end_opt;\s*\}\s*return\s+\*o\s*==\s*\'-\'\s*&&\s*\*\(o\s*\+\s*1\)\s*!=\s*\'\\0\'\s*\?\s*short_opt\s*:\s*no_opt;', cpp):
-        problems.append('anchor not found: getOptionType')
     # handleLongOpt
     m = re.search(r"name\.find\('(.)'\)", cpp)
     if m:
@@ -86,14 +83,6 @@ def generate(repo):
         sconst('NO_VALUE', m.group(1), 'handleLongOpt: value = "no"')
     else:
         problems.append('anchor not found: handleLongOpt negated value')
-    if not re.search(r'if\s*\(!o->value\(\)->isImplicit\(\)\s*&&\s*value\.empty\(\)\)\s*\{\s*if\s*\(const\s+char\*\s*v\s*=\s*next\(\)\)\s*\{\s*value\s*=\s*v;\s*\}\s*else\s*\{\s*throw\s+SyntaxError\(SyntaxError::missing_value', cpp):
-        problems.append('anchor not found: handleLongOpt missing value')
-    if not re.search(r'else\s+if\s*\(o->value\(\)->isFlag\(\)\s*&&\s*!value\.empty\(\)\s*&&\s*!neg\s*&&\s*\(flags\s*&\s*unsigned\(command_line_allow_flag_value\)\)\s*==\s*0u\)\s*\{\s*throw\s+SyntaxError\(SyntaxError::extra_value', cpp):
-        problems.append('anchor not found: handleLongOpt extra value')
-    # handleShortOpt
-    if not re.search(r'if\s*\(o->value\(\)->isImplicit\(\)\)\s*\{\s*if\s*\(!o->value\(\)->isFlag\(\)\)\s*\{\s*addOptionValue\(o,\s*val\);\s*return\s+true;\s*\}\s*else\s*\{\s*addOptionValue\(o,\s*""\);\s*\+\+optName;\s*\}\s*\}\s*'
-                     r'else\s+if\s*\(\*val\s*!=\s*0\s*\|\|\s*\(val\s*=\s*next\(\)\)\s*!=\s*0\)\s*\{\s*addOptionValue\(o,\s*val\);\s*return\s+true;\s*\}\s*else\s*\{\s*throw\s+SyntaxError\(SyntaxError::missing_value', cpp):
-        problems.append('anchor not found: handleShortOpt')
     # positional
     m = re.search(r'if\s*\(!posOpt\s*\|\|\s*!posOpt\(tok,\s*optName\)\)\s*\{\s*return\s+getOption\("([^"]*)",\s*OptionContext::find_name_or_prefix\);', cpp)
     if m:
@@ -116,8 +105,6 @@ def generate(repo):
             problems.append('CommandStringParser::next: unexpected literals %r' % (g,))
     else:
         problems.append('anchor not found: CommandStringParser::next')
-    if not re.search(r'while\s*\(std::isspace\(static_cast<unsigned\s+char>\(\*cmd_\)\)\)\s*\{\s*\+\+cmd_;\s*\}\s*if\s*\(!\*cmd_\)\s*return\s+0;', cpp):
-        problems.append('anchor not found: CommandStringParser::next leading whitespace')
     # CfgFileParser
     m = re.search(r'trimLeft\(std::string&\s*str,\s*const\s+std::string&\s*charList\s*=\s*"([^"]*)"\)', cpp)
     m2 = re.search(r'trimRight\(std::string&\s*str,\s*const\s+std::string&\s*charList\s*=\s*"([^"]*)"\)', cpp)
@@ -142,14 +129,6 @@ def generate(repo):
         sconst('CFG_JOIN', _unesc(m.group(1)), 'CfgFileParser: continuation joiner')
     else:
         problems.append('anchor not found: CfgFileParser continuation')
-    # entry points
-    if not re.search(r'while\s*\(argv\[argc\]\)\s*\+\+argc;\s*ArgvParser\s+parser\(ctx,\s*1,\s*argc,\s*argv,\s*flags\);\s*parser\.parse\(\);\s*argc\s*=\s*1\s*\+\s*\(int\)parser\.remaining\.size\(\);\s*'
-                     r'for\s*\(int\s+i\s*=\s*1;\s*i\s*!=\s*argc;\s*\+\+i\)\s*\{\s*argv\[i\]\s*=\s*const_cast<char\*>\(parser\.remaining\[i-1\]\);\s*\}\s*argv\[argc\]\s*=\s*0;', cpp):
-        problems.append('anchor not found: parseCommandLine argv rewrite')
-    if not re.search(r'ArgvParser\s+parser\(ctx,\s*0,\s*nArgs,\s*argv,\s*flags\);', cpp):
-        problems.append('anchor not found: parseCommandArray')
-    if not re.search(r'DefaultContext\s+ctx\(o,\s*allowUnreg,\s*0\);\s*return\s+static_cast<DefaultContext&>\(CfgFileParser\(ctx,\s*in\)\.parse\(\)\)\.parsed;', cpp):
-        problems.append('anchor not found: parseCfgFile')
     return '\n'.join(L) + '\n', C, problems
 
 
